@@ -127,7 +127,159 @@ Proof.
   eapply good_bind; [apply upd_node_kinds; reflexivity|]. intros a1 H1.
   eapply good_bind; [apply upd_node_kinds; reflexivity|]. intros a2 H2.
   eapply good_bind; [apply set_next_subtree_all_kinds|]. intros a3 H3.
-  cbv beta in *. cbn [good]. vsimp. rewrite H3, H2, H1, map_app. cbn [map nd_kind]. Show. auto.
+  cbv beta in *. cbn [good]. vsimp. rewrite H3, H2, H1, map_app. cbn [map nd_kind]. repeat split; reflexivity.
+Qed.
+
+
+Lemma cow_storage_len t :
+  blen (storage_bytes text match t with CowBorrowed s => Borrowed (SIn s) | CowOwned bs => Owned bs end)
+  = blen (cow_bytes text t).
+Proof. destruct t; reflexivity. Qed.
+
+(* ---- append_text ---- *)
+Lemma append_text_ok t r c : run_ok c ->
+  good (fun c' => run_ok c' /\ eld c c' /\ Phi c' <= Phi c + blen (cow_bytes text t))
+       (append_text t r c).
+Proof.
+  intros Hr. unfold append_text, run_ok in *. destruct (c_after_text c) as [|f l] eqn:Ea.
+  - eapply good_bind; [eapply good_bind; [apply append_node_view|]|].
+    { intros [i c1] H1. cbn [good snd] in *. exact H1. }
+    intros c1 [Hk [Ha [Hc [Ht He]]]]. cbn [good fst snd] in *.
+    unfold run_ok. vsimp. rewrite Ht, Ea. cbn [app tl].
+    split; [|split; [exact He|]].
+    + eexists _, _. split; [exact Hk|]. rewrite cow_storage_len. lia.
+    + rewrite Hk, Ha, Hc, kinds_len_app, kinds_len_cons. cbn [klen].
+      rewrite cow_storage_len. change (kinds_len []) with 0. change (frags_len []) with 0. lia.
+  - cbn [bind good]. unfold run_ok. vsimp. rewrite Ea. cbn [app tl].
+    split; [exact Hr|]. split; [split; reflexivity|]. rewrite frags_len_app, frags_len_cons.
+    change (frags_len []) with 0. lia.
+Qed.
+
+(* ---- reset_after_text ---- *)
+Lemma upd_node_last (l : list node_data) x r f : rev l = x :: r ->
+  good (fun l' => l' = rev r ++ [f x]) (upd_node l (len_N l - 1) f).
+Proof.
+  intros H. assert (El : l = rev r ++ [x]).
+  { rewrite <- (rev_involutive l), H. reflexivity. }
+  unfold upd_node. subst l.
+  replace (N.to_nat (len_N (rev r ++ [x]) - 1)) with (length (rev r))
+    by (unfold len_N; rewrite app_length; cbn [length]; lia).
+  rewrite list_upd_last. reflexivity.
+Qed.
+
+Lemma reset_after_text_ok c : run_ok c ->
+  good (fun c' => c_after_text c' = [] /\ eld c c' /\ Phi c' <= Phi c) (reset_after_text text c).
+Proof.
+  intros Hr. unfold reset_after_text, run_ok in *. destruct (c_after_text c) as [|f [|g l]] eqn:Ea.
+  - cbn [good]. vsimp. rewrite Ea. repeat split; try reflexivity; cbn [tl]; lia.
+  - cbn [good]. vsimp. rewrite Ea. repeat split; try reflexivity; cbn [tl]; lia.
+  - destruct Hr as [ks [st [Hk Hle]]].
+    unfold merge_text. destruct (rev (d_nodes (c_doc c))) as [|nd rr] eqn:Er; [exact I|].
+    assert (Enodes : d_nodes (c_doc c) = rev rr ++ [nd]).
+    { rewrite <- (rev_involutive (d_nodes (c_doc c))), Er. reflexivity. }
+    unfold kinds in Hk. rewrite Enodes, map_app in Hk. cbn [map] in Hk.
+    apply app_inj_tail in Hk. destruct Hk as [Hks Hnd].
+    rewrite Hnd. rewrite Ea.
+    rewrite bind_assoc. eapply good_bind; [eapply upd_node_last; exact Er|].
+    intros l' ->. cbn [bind good]. vsimp. rewrite Ea. cbn [tl]. repeat split; try reflexivity.
+    rewrite Enodes, !map_app, !kinds_len_app. cbn [map nd_kind nd_set_kind]. rewrite Hnd.
+    rewrite !kinds_len_cons. cbn [klen storage_bytes]. change (kinds_len []) with 0.
+    cbn [concat]. rewrite !blen_app, (blen_concat l), !frags_len_cons. change (frags_len []) with 0. lia.
+Qed.
+
+(* ---- namespaces: the node and attribute arrays are not touched ---- *)
+Definition keepd (d d' : document) : Prop := d_nodes d' = d_nodes d /\ d_attrs d' = d_attrs d.
+
+Lemma push_ns_keepd name uri d : good (keepd d) (push_ns text name uri d).
+Proof. unfold push_ns, keepd. vauto; cbn [d_nodes d_attrs]; auto. Qed.
+
+Lemma push_ref_keepd i d : good (keepd d) (push_ref i d).
+Proof. unfold push_ref, keepd. vauto; cbn [d_nodes d_attrs]; auto. Qed.
+
+Hint Resolve ns_prefix_at_good ns_exists_good push_ref_keepd push_ns_keepd : good.
+
+Lemma resolve_ns_loop_keepd st is : forall d, good (keepd d) (resolve_ns_loop text st is d).
+Proof.
+  induction is; intros d; cbn [resolve_ns_loop]; [split; reflexivity|].
+  vauto; unfold keepd in *; destruct_conj; split; congruence.
+Qed.
+
+Definition samev (c c' : context) : Prop := kinds c' = kinds c /\ rest5 c c'.
+
+Lemma samev_refl c : samev c c.
+Proof. repeat split; reflexivity. Qed.
+
+Hint Resolve ns_range_checked_good : good.
+
+Lemma resolve_namespaces_view c : good (fun p => samev c (snd p)) (resolve_namespaces text c).
+Proof.
+  unfold resolve_namespaces. vauto; try apply samev_refl.
+  eapply good_bind; [apply resolve_ns_loop_keepd|]. intros d [H1 H2].
+  gb. cbn [good snd]. unfold samev. vsimp. rewrite H1, H2. repeat split; reflexivity.
+Qed.
+
+(* ---- attributes: the pending ones move to the document ---- *)
+Hint Resolve get_ns_idx_by_prefix_good attr_expanded_name_good any_same_name_good : good.
+
+Lemma resolve_attrs_loop_view nss st l : forall d,
+  good (fun d' => d_nodes d' = d_nodes d /\ attrs_len (d_attrs d') = attrs_len (d_attrs d) + cur_len l)
+       (resolve_attrs_loop text nss st l d).
+Proof.
+  induction l as [|a l IH]; intros d; cbn [resolve_attrs_loop].
+  - cbn [good]. change (cur_len []) with 0. split; [reflexivity|lia].
+  - vauto; cbn [d_nodes d_attrs set_attrs] in *; destruct_conj;
+    match goal with
+    | Hn : d_nodes ?x = d_nodes d, Hl : attrs_len (d_attrs ?x) = _ |- _ =>
+        split; [exact Hn|];
+        rewrite Hl, attrs_len_app, attrs_len_cons, cur_len_cons; cbn [ad_value];
+        change (attrs_len []) with 0; lia
+    end.
+Qed.
+
+Lemma resolve_attributes_view nss c :
+  good (fun p => kinds (snd p) = kinds c /\ c_after_text (snd p) = c_after_text c /\
+                 eld c (snd p) /\ base (snd p) = base c)
+       (resolve_attributes text nss c).
+Proof.
+  unfold resolve_attributes. destruct (c_cur_attrs c) as [|a l] eqn:Ec.
+  - cbn [good snd]. repeat split; reflexivity.
+  - vauto.
+    eapply good_bind; [apply resolve_attrs_loop_view|]. intros d [H1 H2].
+    eapply good_bind; [apply short_range_good|]. intros rr _. cbn [good snd]. vsimp. rewrite H1, H2, Ec. repeat split; try reflexivity.
+    change (cur_len []) with 0. lia.
+Qed.
+
+(* ---- process_element ---- *)
+
+Lemma process_element_ok e r c :
+  good (fun c' => c_after_text c' = c_after_text c /\ eld c c' /\ base c' = base c)
+       (process_element text e r c).
+Proof.
+  unfold process_element. gstep; [vauto|].
+  eapply good_bind; [apply resolve_namespaces_view|]. intros [nss c1] [Hk1 [Ha1 [Hc1 [Ht1 He1]]]].
+  cbn [snd] in *. cbv zeta.
+  eapply good_bind; [apply resolve_attributes_view|]. intros [ats c2] [Hk2 [Ht2 [He2 Hb2]]].
+  cbn [snd] in *. cbv zeta.
+  assert (Hb1 : base c2 = base c).
+  { rewrite Hb2. vsimp. rewrite Hk1, Ha1, Hc1. reflexivity. }
+  assert (Ht : c_after_text c2 = c_after_text c) by (vsimp; congruence).
+  assert (He : eld c c2) by (vsimp; destruct He1, He2; split; congruence).
+  clear Hk1 Ha1 Hc1 Ht1 He1 Hk2 Ht2 He2 Hb2.
+  destruct e.
+  - (* EOpen *)
+    gb. eapply good_bind; [apply append_node_view|]. intros [i c3] [Hk3 [Ha3 [Hc3 [Ht3 He3]]]].
+    cbn [good fst snd] in *. vsimp. destruct He, He3.
+    rewrite Hk3, Ha3, Hc3, kinds_len_app, kinds_len_cons in *. cbn [klen].
+    change (kinds_len []) with 0. repeat split; try congruence. lia.
+  - (* EClose *)
+    vauto.
+    eapply good_bind; [apply upd_node_kinds; reflexivity|]. intros nodes Hn. cbv beta in Hn.
+    vauto; vsimp; destruct He; rewrite ?Hn in *; repeat split; congruence.
+  - (* EEmpty *)
+    gb. eapply good_bind; [apply append_node_view|]. intros [i c3] [Hk3 [Ha3 [Hc3 [Ht3 He3]]]].
+    cbn [good fst snd] in *. vsimp. destruct He, He3.
+    rewrite Hk3, Ha3, Hc3, kinds_len_app, kinds_len_cons in *. cbn [klen].
+    change (kinds_len []) with 0. repeat split; try congruence. lia.
 Qed.
 
 End WithText.
